@@ -162,7 +162,6 @@ static void CodeIFUSED(Word Negate) {
 void CodeIFEXIST(Word Negate) {
     LongInt IfExpr;
     Boolean Found;
-    String  NPath;
 
     ActiveIF = IfAsm;
 
@@ -182,10 +181,8 @@ void CodeIFEXIST(Word Negate) {
             FileName[strlen(FileName) - 1] = '\0';
         }
         AddSuffix(FileName, IncSuffix);
-        strmaxcpy(NPath, IncludeList, STRINGSIZE);
-        strmaxprep(NPath, SDIRSEP, STRINGSIZE);
-        strmaxprep(NPath, ".", STRINGSIZE);
-        Found = !FSearch(Dummy, sizeof(Dummy), FileName, CurrFileName, NPath);
+        /* same search as INCLUDE: directory of the including file, then the include path */
+        Found = !FSearch(Dummy, sizeof(Dummy), FileName, CurrFileName, IncludeList);
         if (IfAsm) {
             strmaxcpy(ListLine, Found ? "=>FOUND" : "=>NOT FOUND", STRINGSIZE);
         }
